@@ -6,8 +6,11 @@
 //  D1i the same through instructions: mov #imm16 -> word, push word
 //  D2  three-way agreement on ar/arp addressing configuration: interpreter (observed register/step/offset) vs the
 //      annotated disassembler; test generator (pinned register is the one the disassembler names) over a full pass
+//  D2m the step a word selects is the step of that name: under generated modulo / bit-reversal / step configurations the
+//      named register ends where the plain "modr rN,<same step>[,dmod]" leaves it from the same state
 #include <regex>
 
+#include "arrefs.h"
 #include "genstream.h"
 #include "icase.h"
 #include "optable.h"
@@ -192,42 +195,9 @@ vf::Result sub_D1i(int w, uint16_t v, uint64_t seed) {
 }
 
 // ---- D2: ar/arp three-way agreement --------------------------------------------------------------------------------
-struct Ref {
-    int reg;
-    int off;  // 0, +1, -1
-    int step; // 0 ++0, 1 ++1, 2 --1, 3 ++s, 4 ++2, 5 --2, 6 ++2*, 7 --2*
-    bool has_step;
-};
-std::vector<Ref> parse_refs(const std::vector<std::string>& tokens) {
-    static const std::regex re(R"(\[%r([0-7])(?:(\+0|\+1|-1\*|-1)(\+\+0|\+\+1|--1|\+\+s|\+\+2\*|--2\*|\+\+2|--2))?\])");
-    static const char* steps[] = {"++0", "++1", "--1", "++s", "++2", "--2", "++2*", "--2*"};
-    std::vector<Ref> out;
-    for (auto& t : tokens) {
-        std::smatch m;
-        if (std::regex_match(t, m, re)) {
-            Ref r{};
-            r.reg = m[1].str()[0] - '0';
-            r.has_step = m[2].matched;
-            if (r.has_step) {
-                std::string o = m[2].str(), s = m[3].str();
-                r.off = o == "+1" ? 1 : (o == "+0" ? 0 : -1);
-                for (int k = 0; k < 8; ++k)
-                    if (s == steps[k])
-                        r.step = k;
-            }
-            out.push_back(r);
-        }
-    }
-    return out;
-}
-
-bool is_ar_form(const optable::Info& i) {
-    for (auto& o : i.operands)
-        if (o.type.find("ArRn") != std::string::npos || o.type.find("ArStep") != std::string::npos || o.type.find("ArpRn") != std::string::npos ||
-            o.type.find("ArpStep") != std::string::npos)
-            return true;
-    return false;
-}
+using arrefs::Ref;
+using arrefs::parse_refs;
+using arrefs::is_ar_form;
 
 const int kMarker[8] = {0x1000, 0x1400, 0x1800, 0x1C00, 0x2000, 0x2400, 0x2800, 0x2C00};
 
@@ -333,6 +303,109 @@ vf::Result sub_D2(uint16_t op, uint16_t x, uint64_t seed) {
     return vf::Result::pass();
 }
 
+// D2m: the step an ar/arp word selects is the step of the same name everywhere. Under a generated addressing
+// configuration (both compatibility modes, modulo / bit reversal / end pointers, 7- and 16-bit steps, registers inside
+// their buffers) every register the annotated text names with a step ++0, ++1, --1, ++s, ++2 or --2 (and the "dmod" flags the
+// text prints) must end where the plain instruction the disassembler prints with that very step -- modr rN,<step>[,dmod] --
+// leaves it from the same state. (The starred steps have no plain counterpart; they are counted, not compared.)
+vf::Result sub_D2m(uint16_t op, uint16_t x, uint64_t seed) {
+    const optable::Info& info = optable::info(op);
+    vf::Stream s(seed);
+    Teakra::Disassembler::ArArpSettings aa;
+    for (auto& v : aa.ar)
+        v = (uint16_t)s.bits(16);
+    for (auto& v : aa.arp)
+        v = (uint16_t)s.bits(16);
+    flat::State st = flat::reset_state();
+    for (int k = 0; k < 2; ++k)
+        st = layout::write(word_index("ar0") + k, st, aa.ar[k]);
+    for (int k = 0; k < 4; ++k)
+        st = layout::write(word_index("arp0") + k, st, aa.arp[k]);
+    st[flat::F_cmd] = s.bits(1);
+    st[flat::F_stp16] = s.bits(1);
+    st[flat::F_stepi] = s.bits(7);
+    st[flat::F_stepj] = s.bits(7);
+    st[flat::F_stepi0] = s.chance(1, 2) ? s.below(9) : s.bits(16);
+    st[flat::F_stepj0] = s.chance(1, 2) ? (uint16_t)(0 - s.below(9)) : s.bits(16);
+    st[flat::F_epi] = s.chance(1, 8);
+    st[flat::F_epj] = s.chance(1, 8);
+    unsigned mod[2];
+    for (int j = 0; j < 2; ++j) {
+        mod[j] = (unsigned)(s.chance(2, 3) ? 1 + s.below(15) : s.below(512));
+        st[j ? flat::F_modj : flat::F_modi] = mod[j];
+    }
+    for (int i = 0; i < 8; ++i) {
+        st[flat::F_m + i] = s.chance(2, 3);
+        st[flat::F_br + i] = s.chance(1, 6);
+        unsigned md = mod[i >= 4];
+        unsigned off = (unsigned)(s.chance(1, 3) ? 0 : (s.chance(1, 2) ? md : s.below(md + 1))); // edges likely
+        st[flat::F_r + i] = (uint16_t)(kMarker[i] + off);
+    }
+    st[flat::F_sp] = 0x4000;
+    st[flat::F_pc] = 0x100;
+    for (int i = 0; i < 2; ++i) {
+        st[flat::F_a + i] = flat::sext40(s.bits(40));
+        st[flat::F_b + i] = flat::sext40(s.bits(40));
+    }
+    icase::ICase c;
+    c.st = st;
+    c.opcode = op;
+    c.expansion = x;
+    icase::IResult r = sut().exec(c);
+    if (r.outcome != 0)
+        return vf::Result::pass();
+    auto tokens = Teakra::Disassembler::GetTokenList(op, x, aa);
+    std::vector<Ref> refs = parse_refs(tokens);
+    if (refs.empty() || info.name.rfind("bkrep", 0) == 0)
+        return vf::Result::pass();
+    int count[8] = {0};
+    for (auto& rf : refs)
+        ++count[rf.reg];
+    static const char* step_text[] = {"++0", "++1", "--1", "++s", "++2", "--2", "++2*", "--2*"};
+    for (auto& rf : refs) {
+        if (count[rf.reg] > 1 || !rf.has_step)
+            continue;
+        if (rf.step >= 6) {
+            vf::klass("D2m: starred step (no plain counterpart, not compared)");
+            continue;
+        }
+        bool dmod = arrefs::dmod_for(tokens, rf.reg);
+        int twin_word;
+        if (rf.step <= 3)
+            twin_word = optable::find_word(dmod ? "modr_dmod(Rn,StepValue#4)" : "modr(Rn,StepValue#4)", {rf.reg, rf.step});
+        else if (rf.step == 4)
+            twin_word = optable::find_word(dmod ? "modr_i2_dmod(Rn)" : "modr_i2(Rn)", {rf.reg});
+        else
+            twin_word = optable::find_word(dmod ? "modr_d2_dmod(Rn)" : "modr_d2(Rn)", {rf.reg});
+        if (twin_word < 0) {
+            vf::add_note("inconclusive: no plain modr form found for step " + std::to_string(rf.step));
+            continue;
+        }
+        icase::ICase t;
+        t.st = st;
+        t.opcode = (uint16_t)twin_word;
+        icase::IResult rt = sut().exec(t);
+        if (rt.outcome != 0)
+            continue;
+        uint16_t got = (uint16_t)r.after[flat::F_r + rf.reg], want = (uint16_t)rt.after[flat::F_r + rf.reg];
+        bool modulo = st[flat::F_m + rf.reg] && !st[flat::F_br + rf.reg] && !dmod;
+        if (modulo && !st[flat::F_cmd] && rf.step >= 4)
+            vf::klass("D2m: +-2 under modulo in Teak mode (where the starred and plain steps differ)");
+        else if (modulo)
+            vf::klass("D2m: step under modulo");
+        else
+            vf::klass("D2m: linear / bit-reversed / dmod step");
+        if (got != want)
+            return vf::Result::fail(std::string("C20:D2m:step:") + info.name + ":" + step_text[rf.step],
+                                    "r" + std::to_string(rf.reg) + " = " + vf::hex(st[flat::F_r + rf.reg]) + " ends at " + vf::hex(got) + " but '" +
+                                        Teakra::Disassembler::Do((uint16_t)twin_word, 0, aa) + "' -- the step the annotated text names -- leaves it at " +
+                                        vf::hex(want) + " (cmd=" + vf::hex(st[flat::F_cmd]) + " m=" + vf::hex(st[flat::F_m + rf.reg]) + " br=" +
+                                        vf::hex(st[flat::F_br + rf.reg]) + " mod=" + vf::hex(mod[rf.reg >= 4]) + (dmod ? " dmod" : "") + ") for " + info.form + " " +
+                                        vf::hex(op) + " text '" + Teakra::Disassembler::Do(op, x, aa) + "'");
+    }
+    return vf::Result::pass();
+}
+
 // generator leg: the registers the disassembler names for a vector are the ones the generator pinned into the windows
 vf::Result sub_D2gen(const std::vector<uint8_t>& bytes) {
     TestCase tc;
@@ -385,6 +458,8 @@ vf::Result run_body(const std::string& body) {
         return sub_D1i((int)a, (uint16_t)b, c);
     if (t[0] == "D2")
         return sub_D2((uint16_t)a, (uint16_t)b, c);
+    if (t[0] == "D2m")
+        return sub_D2m((uint16_t)a, (uint16_t)b, c);
     return vf::Result::pass();
 }
 
@@ -450,6 +525,7 @@ int main(int argc, char** argv) {
             uint16_t x = (uint16_t)s.bits(16);
             uint64_t seed = s.next();
             RUN(sub_D2((uint16_t)op, x, seed), body_of("D2", op, x, seed));
+            RUN(sub_D2m((uint16_t)op, x, seed), body_of("D2m", op, x, seed));
             ++d2;
         }
         if (c.samples.size() < 7 && (op % 97) == (uint32_t)c.worker) {
